@@ -6,7 +6,7 @@ from .. import core, extract
 from ..core import Suite
 from . import c01
 
-LEAN_TARGETS = ['Uds.Props.C07', 'Uds.Tie.Tables', 'Uds.Tie.Groups']
+LEAN_TARGETS = ['Uds.Props.C07', 'Uds.Tie.Tables', 'Uds.Tie.Groups', 'Uds.Tie.Bounds']
 ASSUMPTIONS = [
     'documented domain = the parameter descriptions of the client / service docstrings and helper classes, transcribed per call kind in harness/enclib.py (in_domain) and in Uds/Props/C07.lean; '
     'bool counts as int (Python typing)',
@@ -19,7 +19,7 @@ RULE = ('enc suite as C01 with the out-of-domain stream in focus: every integer 
 
 
 def generate(ctx):
-    extract.generate(['Tables', 'Groups'])
+    extract.generate(['Tables', 'Groups', 'Bounds'])
 
 
 def suite_enc(ctx):
